@@ -43,3 +43,7 @@ package bscript
 
 //@ func bscript.NewFromHexString
 //@   ensures[fromhex_nonnil] (=> (= err nil) (not (nil? result)))
+
+// OP_0 or OP_1..OP_16 (0x51..0x60): the m / n positions of a bare multisig template
+//@ func bscript.isSmallIntOp
+//@   ensures[C14.small_int_op] (= result (or (= opcode 0) (and (<= 81 opcode) (<= opcode 96))))
